@@ -595,16 +595,25 @@ func (g *G) hiddenWrap() string {
 	return g.hiddenOpen(tag) + inner + "</" + tag + ">\n"
 }
 
+// scriptAttr: script and style elements sometimes carry an inline display style (pages that show
+// their own source do that); they stay non-rendered content for the purposes of C04/C05.
+func (g *G) scriptAttr() string {
+	if g.intn(0, 5, "scriptstyle") == 0 {
+		return g.pick("scriptdisp", ` style="display:block"`, ` style="display: inline"`, ` style="display:block;white-space:pre"`)
+	}
+	return ""
+}
+
 func (g *G) script() string {
 	g.push("ha")
 	defer g.pop()
-	return "<script" + g.at("script") + `>var x = "` + g.words(g.intn(1, 4, "scw")) + `"; document.write("<p>` + g.words(20) + `</p>");</script>` + "\n"
+	return "<script" + g.scriptAttr() + g.at("script") + `>var x = "` + g.words(g.intn(1, 4, "scw")) + `"; document.write("<p>` + g.words(20) + `</p>");</script>` + "\n"
 }
 
 func (g *G) style() string {
 	g.push("ha")
 	defer g.pop()
-	return "<style" + g.at("style") + ">." + g.tok() + " { color: red } /* " + g.words(18) + " */</style>\n"
+	return "<style" + g.scriptAttr() + g.at("style") + ">." + g.tok() + " { color: red } /* " + g.words(18) + " */</style>\n"
 }
 
 func (g *G) comment() string {
